@@ -353,7 +353,7 @@ def constructor_inputs(ctx: Ctx) -> None:
             first, second = make(arr), make(arr)
             before = pts(second).copy()
             first.translate([0.3, -0.7, 1.1])
-            moved_second = not np.allclose(pts(second), before, atol=1e-12)
+            moved_second = not np.allclose(pts(second), before, rtol=0, atol=1e-12)
             first.rotate(0.4, [0.2, 1.0, -0.5], [1.0, 2.0, 3.0])
             first.scale(1.7, [0.5, 0.5, 0.5])
             first.mirror([1.0, 0.3, 0.2], [0.1, 0.2, 0.3])
